@@ -147,6 +147,14 @@ def sib_export(ctx: Ctx) -> List[Ob]:
         else:
             why_e = f"{len(eys)} yields in the edge loop"
             ok = None if eys else False
+        if ok:
+            # witness: some other round of the edge loop ends without its edge (a `continue` / `break` that is not the root skip)
+            for x_ in ast.walk(el):
+                if isinstance(x_, (ast.Continue, ast.Break)):
+                    tsx = sorted(cond_texts(inner(f, x_, el)))
+                    if tsx not in ([f"not {flag}", f"{ev}._parent is node"], [f"{ev}._parent is node", f"not {flag}"], [f"not ({flag} or {ev}._parent is not node)"]):
+                        ok = False
+                        why_e = f"a round of the edge loop is left under {tsx}"
         O(f, f"{q}: the edge loop skips exactly `not {flag} and n._parent is node` (identity) and emits one edge statement per remaining node", ok,
           why_e + ": excluding the root omits the root node and the edges leaving it and nothing else (edges leaving an inner clone of the start node stay)", el)
         ok = None
@@ -293,7 +301,10 @@ def sib_export(ctx: Ctx) -> List[Ob]:
     if hc:
         ok = len(hc) == 1 and (hc[0][1], hc[0][3]) == (pp, G) and (f"not ({pp} is None)" in hc[0][4] or f"not {pp} is None" in hc[0][4]) and not any(
             t_ in (pp, f"not {pp}") for t_ in hc[0][4])
-    O(f, "rdf: one has_child triple parent -> child, iff there is a parent graph node (tested with `is not None`)", ok, "edge triple missing or misdirected")
+    if ok and any("is False" in t_ or t_.endswith("is not False") or t_.startswith("not (") and "is False" in t_ for t_ in hc[0][4]):
+        ok = False  # witness: a mapper that answers False (no standard attributes) also loses the edge to its parent
+    O(f, "rdf: one has_child triple parent -> child, iff there is a parent graph node (tested with `is not None`)", ok,
+      "edge triple missing, misdirected, or not added for a node whose mapper returned False (False suppresses the standard attributes, not the edge)")
     kd = [t for t in trip if t[2] == "NUTREE_NS.kind"]
     ok = None if not trip else (len(kd) == 1 and kd[0][1] == G and kd[0][3] in (f"Literal({tp}.kind)",) and f"hasattr({tp}, 'kind')" in kd[0][4])
     if ok is False and len(kd) == 1 and kd[0][1] == G and not any("kind" in t_ for t_ in kd[0][4]):
